@@ -201,3 +201,6 @@ def replay(path):
         print("query:\n" + inst["text"]); print("args:", {k: G.pretty(v) for k, v in inst.get("args", {}).items()})
         print("observed now:", json.dumps({k: o.get(k) for k in ("compile", "exec")})[:3000])
     return 0
+
+from props_pure import *
+from props_algebra import *
